@@ -106,3 +106,54 @@ def declare4(S: Spec):
         ("retries-stay-in-their-pool",
          "C16| all(implies(a.priority == Priority.BATCH_PIPELINE, a.pool_id == 1) and implies(a.priority != Priority.BATCH_PIPELINE, a.pool_id == 0) for a in result[1])"),
     ]
+
+
+def prepare(prog):
+    """one iteration of `for job in queue:` of priority_pool_scheduler (placement of one waiting job on the class's pool)"""
+    import ast
+    from pyvc.extract import extract_loop_body
+    pred = lambda n: ast.unparse(n.target) == "job" and ast.unparse(n.iter) == "queue"
+    return extract_loop_body(prog, f"{MPP}:priority_pool_scheduler", "pp_place_job", pred, ["s", "job", "pool_stats", "pool_id", "to_remove", "to_start"])
+
+
+def declare3(S: Spec):
+    MA = "eudoxia.executor.assignment"
+    MP = "eudoxia.workload.pipeline"
+    PSTATS = Dict(INT, Dict(STR, REAL))
+    S.pred("PPStats", [("ps", PSTATS), ("i", INT)],
+           "ps is not None and i in ps and ps[i] is not None and 'avail_cpu' in ps[i] and 'avail_ram' in ps[i] and 'total_cpu' in ps[i] and 'total_ram' in ps[i]"
+           " and ps[i]['total_cpu'] > 0 and ps[i]['total_ram'] > 0")
+    # what the scheduler's own assertion needs: a pool runs out of CPU and RAM together
+    S.pred("BothOrNone", [("ps", PSTATS), ("i", INT)],
+           "ps[i]['avail_cpu'] >= 0 and ps[i]['avail_ram'] >= 0 and (ps[i]['avail_cpu'] == 0) == (ps[i]['avail_ram'] == 0)")
+    LAST = "to_start[len(to_start) - 1]"
+    S.fn(f"{MPP}:pp_place_job", owners=["C08", "C16"],
+         params={"s": Ref("Scheduler"), "job": Ref("WaitingQueueJob"), "pool_stats": PSTATS, "pool_id": INT,
+                 "to_remove": List(Ref("WaitingQueueJob")), "to_start": List(Ref("Assignment"))},
+         returns=STR,
+         locals={"avail_ram": REAL, "avail_cpu": REAL, "op_list": List(Ref("Operator")), "rs": Ref("RetryStats"), "job_cpu": REAL, "job_ram": REAL,
+                 "cpu_ratio": REAL, "ram_ratio": REAL, "asgmnt": Ref("Assignment")},
+         requires=["s is not None", "PPStats(pool_stats, pool_id)", "BothOrNone(pool_stats, pool_id)",
+                   "job is not None and job.ops is not None and implies(job.retry_stats is not None, job.retry_stats.old_cpu > 0 and job.retry_stats.old_ram > 0)",
+                   "to_remove is not None and to_start is not None"],
+         ensures=[("a-pool-runs-out-of-cpu-and-ram-together", "BothOrNone(pool_stats, pool_id)"),
+                  ("stops-only-when-the-pool-is-empty", "(result == 'break') == (old(pool_stats[pool_id]['avail_cpu']) == 0)"),
+                  ("a-stopped-round-changes-nothing", "implies(result == 'break', len(to_start) == old(len(to_start)) and len(to_remove) == old(len(to_remove)))"),
+                  ("at-most-one-container-per-job", "len(to_start) == old(len(to_start)) or len(to_start) == old(len(to_start)) + 1"),
+                  ("only-a-retry-after-an-error-is-dropped",
+                   "implies(result == 'continue', len(to_start) == old(len(to_start)) and job.retry_stats is not None and job.retry_stats.error is not None"
+                   " and (rdiv(2 * job.retry_stats.old_cpu, pool_stats[pool_id]['total_cpu']) >= 0.5 or rdiv(2 * job.retry_stats.old_ram, pool_stats[pool_id]['total_ram']) >= 0.5))"),
+                  ("a-retry-reaching-half-of-the-pool-is-abandoned",
+                   "implies(job.retry_stats is not None and job.retry_stats.error is not None and old(pool_stats[pool_id]['avail_cpu']) != 0 and"
+                   " (rdiv(2 * job.retry_stats.old_cpu, pool_stats[pool_id]['total_cpu']) >= 0.5 or rdiv(2 * job.retry_stats.old_ram, pool_stats[pool_id]['total_ram']) >= 0.5),"
+                   " result == 'continue')"),
+                  ("the-container-fits-the-snapshot-and-is-charged-to-it",
+                   f"implies(len(to_start) == old(len(to_start)) + 1, {LAST}.ops is job.ops and {LAST}.priority == job.priority and {LAST}.pool_id == pool_id"
+                   f" and {LAST}.cpu > 0 and {LAST}.ram > 0 and {LAST}.cpu <= old(pool_stats[pool_id]['avail_cpu']) and {LAST}.ram <= old(pool_stats[pool_id]['avail_ram'])"
+                   f" and pool_stats[pool_id]['avail_cpu'] == old(pool_stats[pool_id]['avail_cpu']) - {LAST}.cpu"
+                   f" and pool_stats[pool_id]['avail_ram'] == old(pool_stats[pool_id]['avail_ram']) - {LAST}.ram)")],
+         raises={"Exception": ["old(pool_stats[pool_id]['avail_cpu']) != 0 and old(pool_stats[pool_id]['avail_ram']) != 0"]},
+         modifies=["star('*')"], allocates=True,
+         variants={f"{MA}:Assignment.__init__": f"{MA}:Assignment.__init__#shape", f"{MP}:Pipeline.runtime_status": f"{MP}:Pipeline.runtime_status#any"},
+         note="an exception can only come from the Assignment constructor (after the empty-pool test passed): the scheduler's own "
+              "'invalid pool' assertion cannot fire.  One iteration of the job loop of priority_pool_scheduler, extracted (continue/break of that loop become return values)")
